@@ -169,9 +169,9 @@ Proof.
   - unfold owner_unload. destruct (is_owner lower n); [exact Hg|].
     destruct (get_callback lower (s_cbs s) n) as [old|]; [|exact Hg].
     unfold remove_callback. rewrite partition_filter.
-    assert (H : good_st (St (filter (fun x => negb (name_is lower (cname old) x)) (s_cbs s)) (s_next s))).
+    assert (H : good (s_next s) (filter (fun x => negb (name_is lower (cname old) x)) (s_cbs s))).
     { apply good_filter. exact Hg. }
-    destruct (filter (name_is lower (cname old)) (s_cbs s)); [exact H|]. destruct dief; exact H.
+    destruct (filter (name_is lower (cname old)) (s_cbs s)); exact H.
   - unfold owner_reload. destruct (is_owner lower n); [exact Hg|].
     unfold remove_callback. rewrite partition_filter.
     set (bad := filter (name_is lower n) (s_cbs s)).
@@ -184,9 +184,8 @@ Proof.
       * rewrite <- Eb. apply Forall_forall. intros c Hc. apply filter_In in Hc as [Hc _].
         destruct Hg as [[_ [_ H3]] _]. rewrite Forall_forall in H3. auto. }
     destruct (load_plugin_module lower world n imp).
-    + destruct dief; [exact Hgg|].
-      pose proof (load_plugin_class_good (St gd (s_next s)) p initf o Hx Hgg) as H.
-      destruct (load_plugin_class lower (St gd (s_next s)) p initf o). exact H.
+    + pose proof (load_plugin_class_good (St gd (s_next s) (s_dead s ++ ids (b0 :: bt))) p initf o Hx Hgg) as H.
+      destruct (load_plugin_class lower (St gd (s_next s) (s_dead s ++ ids (b0 :: bt))) p initf o). exact H.
     + destruct (readd lower o gd (b0 :: bt)) as [r res]. exact Hre.
     + destruct (readd lower o gd (b0 :: bt)) as [r res]. exact Hre.
 Qed.
@@ -233,13 +232,12 @@ Proof.
 Qed.
 
 (* ---- a failed operation leaves the registered set as it was ---- *)
-(* the stated domain: everything except (a) a reload whose import SUCCEEDS and which then fails in the
-   replace phase (old die() / new constructor / new constraints: known finding C20.F21) and
-   (b) an unload whose die() raises (the plugin is removed as asked; the error reply comes from die()) *)
+(* the stated domain: everything except a reload whose import SUCCEEDS and which then fails in the
+   replace phase (new constructor / new constraints: known finding C20.F21).  A raising die() is
+   swallowed by the firewall and is no failure of the command. *)
 Definition op_dom (x : op) : Prop :=
   match x with
   | Reload _ imp _ _ _ => imp <> 0
-  | Unload _ dief => dief = false
   | _ => True
   end.
 
@@ -263,7 +261,7 @@ Proof.
     destruct (add_callback lower o (s_cbs s) (mk_cb (s_next s) p)) as [l' r0] eqn:Ea.
     inversion E; subst. destruct (Hadd o p l' r0 Hx Ea) as [->| ->]; [exfalso; apply Hr; reflexivity|apply Permutation_refl].
   - rewrite (failed_load_keeps lower world s n imp initf o Hx (proj1 Hg) s' r E Hr). apply Permutation_refl.
-  - subst dief. unfold owner_unload in E. destruct (is_owner lower n); [inversion E; subst; apply Permutation_refl|].
+  - unfold owner_unload in E. destruct (is_owner lower n); [inversion E; subst; apply Permutation_refl|].
     destruct (get_callback lower (s_cbs s) n) as [old|]; [|inversion E; subst; apply Permutation_refl].
     unfold remove_callback in E. rewrite partition_filter in E.
     destruct (filter (name_is lower (cname old)) (s_cbs s)) eqn:Eb; inversion E; subst.
